@@ -126,8 +126,11 @@ def Schema.getEnum (S : Schema) (name : String) : Option Enum :=
   S.enums.find? (·.name == name)
 
 /-- `sorted(struct.fields, key=lambda f: f.field_id)` — stable -/
-def sortFields (fs : List Field) : List Field :=
-  fs.mergeSort (fun a b => a.id ≤ b.id)
+def insertField (f : Field) : List Field → List Field
+  | [] => [f]
+  | g :: gs => if f.id ≤ g.id then f :: g :: gs else g :: insertField f gs
+
+def sortFields (fs : List Field) : List Field := fs.foldr insertField []
 
 /-- `Enum.max()` -/
 def Enum.maxValue (e : Enum) : Int :=
